@@ -423,7 +423,8 @@ def search(res, tier, boost=False):
     def fail(key, **data):
         res.violation(key, data)
 
-    for deg, (p, w) in NEWTON_COTES.items():
+    from ..exact import SIGNED_RULES
+    for deg, (p, w) in list(NEWTON_COTES.items()) + SIGNED_RULES:
         base = Q.QuadScheme1D(farr(p), farr(w))
         p2 = Q.ProductScheme2D(base)
         for _ in range(reps):
